@@ -196,4 +196,10 @@ def split_array(data, f_sample_num=None, t_sample_num=None,
     if f_trim:
         split_data = list(filter(lambda A: A.shape[1] == f_sample_num,
                                  split_data))
-    return np.array(split_data)
+    try:
+        return np.array(split_data)
+    except ValueError:
+        # Ragged tiles (untrimmed edges) cannot be packed into a regular array
+        ragged = np.empty(len(split_data), dtype=object)
+        ragged[:] = split_data
+        return ragged
